@@ -17,6 +17,7 @@ Search    : the property's own oracles on the implementation: (m = 1, constant-r
 from __future__ import annotations
 
 import json
+import os
 import math
 import sys
 import traceback
@@ -368,6 +369,294 @@ def build(spec):
     return process_object(spec, dic), dic
 
 
+
+# ============================================================================ fourth wave: how the object under test is reached
+def bits(x):
+    return f2h(float(x))
+
+
+def grad_modes(c):
+    """log_prob under torch.no_grad(), with autograd enabled, and with every floating leaf requiring grad: bitwise equal.
+    -> None or a description of the disagreement"""
+    torch = T()["torch"]
+    out = {}
+    for mode in ("autograd", "no_grad", "requires_grad"):
+        try:
+            d = impl_dist(c)
+            heights = TT(c["tips"] + c["ints"])
+            if mode == "requires_grad":
+                for t_ in list(d._c09_inputs.values()) + [heights]:
+                    t_.requires_grad_(True)
+            if mode == "no_grad":
+                with torch.no_grad():
+                    v = d.log_prob(heights)
+            else:
+                v = d.log_prob(heights)
+            out[mode] = bits(v.reshape(()).item()) if v.numel() == 1 else f"shape {list(v.shape)}"
+            if mode == "requires_grad" and v.numel() == 1 and torch.isfinite(v).all():
+                if not v.requires_grad:
+                    out[mode] += " (result does not require grad)"
+                else:
+                    v.reshape(()).backward()
+        except Exception as e:
+            out[mode] = f"raises {type(e).__name__}: {str(e)[:100]}"
+    if len(set(out.values())) > 1:
+        return ", ".join(f"{k}: {h2f(v)!r}" if len(v) == 16 and " " not in v else f"{k}: {v}" for k, v in out.items())
+    return None
+
+
+def model_routes(c):
+    """name -> thunk building a BDSKModel for the case through one construction route; all must evaluate bitwise alike"""
+    from torchtree import Parameter
+    from torchtree.core.utils import process_object
+    from torchtree.evolution.bdsk import BDSKModel
+
+    m = len(c["lam"])
+    base = bdsk_json(c, "parameter")
+
+    def built(spec, pre=()):
+        def go():
+            dic = {}
+            for e in pre:
+                process_object(json.loads(json.dumps(e)), dic)
+            return process_object(json.loads(json.dumps(spec)), dic)
+        return go
+
+    def reverse(o):
+        if isinstance(o, dict):
+            return {k: reverse(o[k]) for k in reversed(list(o))}
+        return o
+
+    routes = {"json": built(base), "json, keys in reverse order": built(reverse(base))}
+    explicit = dict(base)
+    explicit.setdefault("origin_is_root_edge", False)
+    explicit.setdefault("relative_times", c["mode"] == "relative" and m > 1)
+    explicit.setdefault("survival", c["survival"])
+    routes["json, every optional key explicit"] = built(explicit)
+    if c["survival"]:
+        absent = dict(base)
+        absent.pop("survival")
+        routes["json, survival absent (default true)"] = built(absent)
+    full = json.loads(json.dumps(base))
+    full["type"] = "torchtree.evolution.bdsk.BDSKModel"
+    for k in ("R", "delta", "s", "rho", "origin", "times"):
+        if isinstance(full.get(k), dict):
+            full[k]["type"] = "torchtree.Parameter"
+    routes["json, full type names"] = built(full)
+    refd = dict(base)
+    pre = [base["tree_model"]]
+    refd["tree_model"] = "tree"
+    for k in ("R", "delta", "s", "rho", "origin", "times"):
+        if isinstance(base.get(k), dict):
+            pre.append(base[k])
+            refd[k] = base[k]["id"]
+    routes["json, sub-objects defined before and referenced by id"] = built(refd, pre)
+    if m > 1:
+        routes["json, times as a plain list"] = built(bdsk_json(c, "list"))
+        if c["mode"] != "relative" and all(float(x).is_integer() for x in c["times"][:-1]):
+            il = bdsk_json(c, "list")
+            il["times"] = [int(x) for x in il["times"]]
+            routes["json, times as a list of integers"] = built(il)
+
+    def ctor(positional):
+        def go():
+            dic = {}
+            tree = process_object(json.loads(json.dumps(base["tree_model"])), dic)
+            P_ = lambda k: Parameter(k, TT(base[k]["tensor"]))  # noqa: E731
+            times = P_("times") if m > 1 else None
+            if positional:
+                return BDSKModel("bdsk", tree, P_("R"), P_("delta"), P_("s"), P_("rho"), P_("origin"), False, times, c["mode"] == "relative" and m > 1, c["survival"], None)
+            return BDSKModel(id_="bdsk", survival=c["survival"], relative_times=c["mode"] == "relative" and m > 1, times=times, origin=P_("origin"), rho=P_("rho"),
+                             s=P_("s"), delta=P_("delta"), R=P_("R"), tree_model=tree)
+        return go
+
+    routes["constructor, keywords"] = ctor(False)
+    routes["constructor, positional"] = ctor(True)
+    return routes
+
+
+def routes_pass(ck, fail, n):
+    torch = T()["torch"]
+    rng = ck.rng
+    done = 0
+    guard = 0
+    while done < n and guard < 10 * n:
+        guard += 1
+        c = gen_case(rng, max_m=3, n_max=4, allow=("coincide", "rhomid", "modes"))
+        if c["mode"] == "none" or c["root_edge"] or c["r"] is not None:
+            continue
+        c["short_rho"], c["no_rho"] = False, False
+        done += 1
+        vals = {}
+        for name, thunk in model_routes(c).items():
+            try:
+                mdl = thunk()
+                res = mdl()
+                vals[name] = bits(res.reshape(()).item()) if res.numel() == 1 else f"shape {list(res.shape)}"
+                # the object is the one the options name
+                seen = {"survival": mdl.survival, "relative_times": mdl.relative_times, "origin_is_root_edge": mdl.origin_is_root_edge,
+                        "removal_probability": mdl.removal_probability}
+                want = {"survival": c["survival"], "relative_times": c["mode"] == "relative" and len(c["lam"]) > 1, "origin_is_root_edge": False,
+                        "removal_probability": None}
+                if seen != want:
+                    fail(f"BDSKModel:route-options:{name.split(',')[0]}", f"BDSKModel built through [{name}] holds {seen}, the case names {want}", {"case": slim(c), "route": name})
+            except Exception as e:
+                vals[name] = f"raises {type(e).__name__}: {str(e)[:100]}"
+            ck.case(("route", done, name), nontrivial=True, bucket="route/" + name)
+        ref = vals["json"]
+        for name, v in vals.items():
+            if v != ref:
+                fail(f"BDSKModel:route-differs:{name}", f"BDSKModel built through [{name}] gives {h2f(v) if len(v) == 16 else v!r}, through from_json {h2f(ref) if len(ref) == 16 else ref!r}",
+                     {"case": slim(c), "route": name, "values": vals})
+        # the distributions: keyword / positional
+        if len(c["lam"]) == 1:
+            bd = T()["bd"].BirthDeath
+            a = [TT(c[k]) for k in ("lam", "mu", "psi", "rho")] + [TT([c["times"][-1]])]
+            hs = TT(c["tips"] + c["ints"])
+            try:
+                v1 = bd(*a, c["survival"]).log_prob(hs)
+                v2 = bd(survival=c["survival"], origin=a[4], rho=a[3], psi=a[2], mu=a[1], lambda_=a[0]).log_prob(hs)
+                ck.case(("route-bd", done), nontrivial=True, bucket="route/BirthDeath positional vs keyword")
+                if bits(v1.reshape(()).item()) != bits(v2.reshape(()).item()):
+                    fail("BirthDeath:route-differs", f"BirthDeath positional {v1!r} vs keyword {v2!r}", {"case": slim(c)})
+            except Exception as e:
+                fail(f"BirthDeath:route-raises:{type(e).__name__}", f"BirthDeath constructor route raises {e!r}"[:200], {"case": slim(c)})
+    # ---- the JSON the command line interface emits for a BDSK / constant birth–death prior (it declares no dtype: reference regime only)
+    if _REG["name"] != "f64":
+        return
+    try:
+        import types
+
+        from torchtree.cli.evolution import create_bdsk, create_constant_birth_death
+        from torchtree.core.utils import process_object
+
+        for kind in ("bdsk", "constant"):
+            for _ in range(50):
+                c = gen_case(rng, max_m=1, n_max=4, allow=())
+                if all(h == 0 for h in c["tips"]):
+                    break
+            else:
+                continue
+            grid = 3 if kind == "bdsk" else 1
+            arg = types.SimpleNamespace(grid=grid, dates=0, birth_death=kind)
+            spec = create_bdsk("bd", "tree", arg) if kind == "bdsk" else create_constant_birth_death("bd", "tree", arg)
+            dic = {}
+            process_object(tree_json(c), dic)
+            process_object({"id": "tree.root_height", "type": "Parameter", "tensor": [c["ints"][-1]]}, dic)
+            mdl = process_object(json.loads(json.dumps(spec)), dic)
+            v = float(mdl().reshape(()).item())
+            T_ = c["ints"][-1] + 1.0
+            if kind == "bdsk":
+                cd = dict(c, lam=[9.0] * grid, mu=[3.0] * grid, psi=[0.0] * grid, rho=[0.0] * (grid - 1) + [1e-6], short_rho=True, no_rho=False, r=None,
+                          times=[k * T_ / grid for k in range(grid)] + [T_], mode="none", root_edge=False, survival=True)
+                kd, vd = impl_value(cd)
+            else:
+                bdv = T()["bd"].BirthDeath(TT([3.0]), TT([2.0]), TT([1.0]), TT([1e-6]), TT([T_]), survival=True).log_prob(TT(c["tips"] + c["ints"]))
+                kd, vd = "ok", float(bdv.reshape(()).item())
+            ck.case(("route-cli", kind), nontrivial=True, bucket="route/cli " + kind)
+            if kd != "ok" or not (bits(v) == bits(vd) or close(v, vd, 1e-12)):
+                fail(f"route-cli:{kind}", f"the {kind} birth–death block emitted by the command line interface evaluates to {v!r}; the distribution built directly "
+                     f"with the values it names gives {kd} {vd!r}", {"case": slim(c), "spec": spec})
+    except ImportError as e:
+        ck.notes.append(f"cli route not available: {e}")
+    except Exception as e:
+        fail(f"route-cli:raises:{type(e).__name__}", f"building the command-line JSON for a birth–death prior raises {e!r}"[:220], {"case": slim(c)})
+
+
+def fresh_process_values(cases):
+    """the cases evaluated as the FIRST objects of a fresh interpreter (direct distribution, BDSKModel from JSON)"""
+    import subprocess
+    import sys as _sys
+    import tempfile
+
+    with tempfile.NamedTemporaryFile("w", suffix=".json", delete=False) as f:
+        json.dump([slim(c) for c in cases], f)
+        path = f.name
+    code = ("import sys, json; sys.path.insert(0, %r); import c09\n"
+            "cs=[c09._fix_tree(x) for x in json.load(open(%r))]\nout=[]\n"
+            "for c in cs:\n"
+            "    k,v=c09.impl_value(c)\n"
+            "    try:\n"
+            "        m=float(c09.build(c09.bdsk_json(c))[0]().reshape(()).item()) if (c['r'] is None and not c['root_edge'] and c['mode']!='none') else None\n"
+            "    except Exception as e:\n"
+            "        m='raises '+type(e).__name__\n"
+            "    out.append([k, c09.f2h(v) if k=='ok' else v, c09.f2h(m) if isinstance(m,float) else m])\n"
+            "print('C09FRESH'+json.dumps(out))\n") % (str(Path(__file__).parent), path)
+    r = subprocess.run([_sys.executable, "-c", code], capture_output=True, text=True, timeout=120, env=dict(os.environ, OMP_NUM_THREADS="2"))
+    os.unlink(path)
+    line = next((l for l in r.stdout.splitlines() if l.startswith("C09FRESH")), None)
+    if line is None:
+        raise InfraError("fresh-process evaluation failed: " + r.stderr[-300:])
+    return json.loads(line[len("C09FRESH"):])
+
+
+def second_instance(ck, fail, first):
+    """objects built LATE in this process (after hundreds of others of the same classes) vs the same cases built first in a fresh
+    interpreter, and vs their own first evaluation in this process"""
+    cases = [c for c, _ in first]
+    fresh = fresh_process_values(cases)
+    for (c, v0), (k1, v1, m1) in zip(first, fresh):
+        k2, v2 = impl_value(c)
+        ck.case(None, nontrivial=False, bucket="second-instance")
+        late = bits(v2) if k2 == "ok" else str(v2)
+        if k1 != k2 or (k1 == "ok" and v1 != late):
+            fail("bdsk:second-instance:fresh-process", f"log_prob of an object built late in a long-running process is {v2!r}; the same case built first in a fresh "
+                 f"interpreter gives {h2f(v1) if k1 == 'ok' else v1!r}", {"case": slim(c), "late": [k2, v2], "fresh": [k1, v1]})
+        if k2 == "ok" and bits(v0) != late:
+            fail("bdsk:second-instance:same-process", f"log_prob of a new object for a case evaluated earlier in this process: then {v0!r}, now {v2!r}", {"case": slim(c)})
+        if isinstance(m1, str) and len(m1) == 16 and c["r"] is None and not c["root_edge"] and c["mode"] != "none":
+            try:
+                m2 = bits(build(bdsk_json(c))[0]().reshape(()).item())
+            except Exception as e:
+                m2 = "raises " + type(e).__name__
+            if m2 != m1:
+                fail("BDSKModel:second-instance:fresh-process", f"BDSKModel() built late in this process gives {h2f(m2) if len(m2) == 16 else m2!r}, built first in a fresh "
+                     f"interpreter {h2f(m1)!r}", {"case": slim(c)})
+
+
+def copies_and_moves(ck, fail, model, dic, spec_of, st, names, replay, cls):
+    """copy.deepcopy of a live model: the copy evaluates like the original, updates of the copy do not reach the original
+    (and vice versa); model.cpu() / model.to(dtype) leave the value alone"""
+    import copy
+
+    torch = T()["torch"]
+    try:
+        v0 = model()
+        twin = copy.deepcopy(model)
+        v1 = twin()
+        if bits(v0.reshape(()).item()) != bits(v1.reshape(()).item()):
+            fail(f"{cls}:deepcopy-differs", f"copy.deepcopy({cls}) evaluates to {v1!r}, the original to {v0!r}", replay)
+            return
+        tp = {p.id: p for p in twin.parameters()}
+        nm = next((n for n in ("R", "lambda", "origin") if n in tp and n in dic), None)
+        if nm is None or tp[nm] is dic[nm]:
+            fail(f"{cls}:deepcopy-shares-parameters", f"copy.deepcopy({cls}) shares the Parameter objects of the original ({sorted(tp)})", replay)
+            return
+        new = dict(st)
+        new[nm] = [v * 1.25 for v in st[nm]]
+        tp[nm].tensor = TT(new[nm])
+        v_twin = twin()
+        v_orig = model()
+        fresh_new = build(spec_of(new))[0]()
+        ck.case(None, nontrivial=False, bucket=f"deepcopy/{cls}")
+        if bits(v_orig.reshape(()).item()) != bits(v0.reshape(()).item()) or not same_bits(dic[nm].tensor, TT(st[nm])):
+            fail(f"{cls}:deepcopy-update-reaches-original", f"after updating {nm} on a deep copy the ORIGINAL {cls} evaluates to {v_orig!r} (before: {v0!r})", replay)
+        if not close(float(v_twin.reshape(()).item()), float(fresh_new.reshape(()).item()), 1e-12):
+            fail(f"{cls}:deepcopy-stale", f"after updating {nm} on a deep copy the copy evaluates to {v_twin!r}, a freshly built model to {fresh_new!r}", replay)
+        # moves that change nothing
+        model.cpu()
+        v_cpu = model()
+        model.to(in_dtype())
+        v_to = model()
+        model.lp_needs_update = True
+        v_again = model()
+        for what, v in (("cpu()", v_cpu), (f"to({in_dtype()})", v_to), ("to(...) and re-evaluation", v_again)):
+            if v.dtype != v0.dtype or bits(v.reshape(()).item()) != bits(v0.reshape(()).item()):
+                fail(f"{cls}:move-changes-value", f"{cls}: after model.{what} the value is {v!r}, before {v0!r}", replay)
+    except Exception as e:
+        fail(f"{cls}:deepcopy-raises:{type(e).__name__}", f"{cls}: deepcopy / update of the copy / cpu() / to() raises {e!r}"[:220], replay)
+
+
 # ============================================================================ tensor constructors without a dtype
 CTORS = ("ones", "zeros", "tensor", "arange", "full", "eye", "empty", "linspace", "as_tensor", "ones_like", "zeros_like", "full_like")
 REACHABLE = ("_call", "__init__", "from_json", "log_p", "log_q", "log_prob", "epidemiology_to_birth_death", "_sample_shape")
@@ -538,6 +827,10 @@ def run(ck: Check):
                 if rep.split() != [f2h(float(v)) for v in got]:
                     ck.mismatch("epidemiology_to_birth_death differs from the model", {"in": [R, d, s, r], "impl": [float(v) for v in got], "model": rep})
         # ---------------------------------------------------------------- corpus then generated cases
+        routes_pass(ck, fail, 12 if th else 5)
+        with regime("A"):
+            routes_pass(ck, fail, 4 if th else 2)
+        first_seen = []
         cases = []
         for f in sorted((VERIF / "corpus" / "C09").glob("*.json")):
             obj = json.loads(f.read_text())
@@ -569,6 +862,15 @@ def run(ck: Check):
                 fail(f"bdsk:log_prob-fails:{feats[0]}", f"log_prob {'returns a vector ' + str(val) if kind == 'vector' else 'raises ' + val} [{', '.join(feats)}]",
                      dict(replay, impl=[kind, val]))
                 continue
+            if len(first_seen) < 12 and idx % 3 == 0:
+                first_seen.append((c, val))
+            gm = grad_modes(c)
+            ck.bucket("grad-modes")
+            if gm is None and idx % 4 == 0:
+                with regime("A"):
+                    gm = grad_modes(c)
+            if gm:
+                fail(f"bdsk:grad-mode-differs:{feats[0]}", f"log_prob depends on the autograd mode — {gm} [{', '.join(feats)}]", dict(replay, grad_modes=gm))
             # ---- Lean model
             if drv:
                 times = effective_times(c)
@@ -659,6 +961,7 @@ def run(ck: Check):
                         continue
                     with regime(reg):
                         json_models(ck, c, val, fail, drv)
+        second_instance(ck, fail, first_seen)
     finally:
         if drv:
             drv.close()
@@ -952,6 +1255,9 @@ def histories(ck, fail, trials=6):
                     fail(f"{cls}:stale-after-update:{nm}", f"{cls}: after updating {nm} through Parameter.tensor (history {hist}) the model returns {v!r}, "
                          f"a freshly built model {fv!r}", replay)
                     break
+            else:
+                if not math.isnan(v):
+                    copies_and_moves(ck, fail, model, dic, spec_of, st, names, dict(replay, deepcopy=True), cls)
 
 
 def batches(ck, drv, fail, trials=12):
